@@ -902,6 +902,12 @@ def run(ctx):
                 mg["found_in"].append(g["case"])
                 if case_size(r["case"]) < case_size(mg["case"]):
                     mg["case"], mg["text"] = r["case"], r["text"]
+        # a class that already shows with the plain writer is front-end
+        # independent: its other manifestations are the same finding
+        for (kind, detail, label) in sorted(merged):
+            if label != "plain" and (kind, detail, "plain") in merged:
+                mg = merged.pop((kind, detail, label))
+                merged[(kind, detail, "plain")]["n"] += mg["n"]
         for (kind, detail, label), mg in sorted(merged.items()):
             case = mg["case"]
             sig = "%s|%s|%s|%s" % (kind, detail, label, show_ops(case["ops"], case["splits"], case["merges"]))
